@@ -108,8 +108,8 @@ Print Assumptions C13_keyed_by_index.
 Theorem C13_answer_is_a_map :
   forall parse (cfg : config) (ops : list op) (sync : bool) (e : N) (idx : option (list N)),
     NoDup (map a_id (c_universe cfg)) ->
-    (forall offered l, In (Refresh offered (VOk l)) ops ->
-       forall v1 v2, In v1 l -> In v2 l -> v_index v1 = v_index v2 -> v_pk v1 = v_pk v2) ->
+    (forall offered vo, In (Refresh offered vo) ops ->
+       forall v1 v2, In v1 (vout_vals vo) -> In v2 (vout_vals vo) -> v_index v1 = v_index v2 -> v_pk v1 = v_pk v2) ->
     NoDup (map fst (query cfg (run_state parse cfg init ops) sync e idx)).
 Proof. exact history_query_keys_nodup. Qed.
 Print Assumptions C13_answer_is_a_map.
@@ -121,8 +121,8 @@ Print Assumptions C13_answer_is_a_map.
 Theorem C13_validating_exactly :
   forall parse (cfg : config) (ops : list op) (e : N) (idx : option (list N)) (i pk : N),
     e < c_far cfg ->
-    (forall offered l, In (Refresh offered (VOk l)) ops ->
-       Forall (fun v => v_slashed v = true -> v_exit v <> c_far cfg) l) ->
+    (forall offered vo, In (Refresh offered vo) ops ->
+       Forall (fun v => v_slashed v = true -> v_exit v <> c_far cfg) (vout_vals vo)) ->
     let s := run_state parse cfg init ops in
     (In (i, pk) (query cfg s false e idx) <->
      In pk (st_accounts s) /\
@@ -186,13 +186,13 @@ Print Assumptions C13_outputs_follow_states.
 Theorem C13_retain_on_empty :
   forall parse (cfg : config) (s : state) (offered : list N) (vo : vout),
     (c_mgr cfg = Dirk -> admitted parse cfg offered = [] ->
-     match vo with VErr => True | VOk l => node_answer l (st_accounts s) = [] end ->
+     match node_reply vo (st_accounts s) with None => True | Some got => got = [] end ->
      refresh parse cfg s offered vo = s)
     /\ (c_mgr cfg = Dirk -> admitted parse cfg offered = [] ->
         st_accounts (refresh parse cfg s offered vo) = st_accounts s)
-    /\ (match vo with
-        | VErr => True
-        | VOk l => node_answer l (refresh_accounts parse cfg (st_accounts s) offered) = []
+    /\ (match node_reply vo (refresh_accounts parse cfg (st_accounts s) offered) with
+        | None => True
+        | Some got => got = []
         end -> st_vals (refresh parse cfg s offered vo) = st_vals s).
 Proof.
   intros parse cfg s offered vo. split; [|split].
@@ -409,8 +409,9 @@ Print Assumptions C13_enclosed_whenever_bar.
 Theorem C13_P_b_sound :
   forall c : case,
     P_b c = true ->
-    (exists offered ops', c_mgr (c_cfg c) = Wallet /\ c_ops c = Refresh offered VErr :: ops' /\
-                          exists rest, c_outs c = OCtorErr :: rest)
+    (exists offered vo ops', c_mgr (c_cfg c) = Wallet /\ c_ops c = Refresh offered vo :: ops' /\
+                             node_may_fail (lookup_parse (c_parse c)) (c_cfg c) offered vo /\
+                             exists rest, c_outs c = OCtorErr :: rest)
     \/ holds (lookup_parse (c_parse c)) (c_cfg c) [] [] (c_ops c) (c_outs c).
 Proof. exact P_b_sound. Qed.
 Print Assumptions C13_P_b_sound.
